@@ -254,8 +254,8 @@ func (t *Dense) TensorMul(other Tensor, axesA, axesB []int) (retVal *Dense, err 
 
 	newAxesA := BorrowInts(len(notins) + len(axesA))
 	defer ReturnInts(newAxesA)
-	newAxesA = newAxesA[:0]
-	newAxesA = append(notins, axesA...)
+	// built in its own storage: notins is refilled for the other operand below
+	newAxesA = append(append(newAxesA[:0], notins...), axesA...)
 	n2 := 1
 	for _, a := range axesA {
 		n2 *= ts[a]
@@ -290,8 +290,7 @@ func (t *Dense) TensorMul(other Tensor, axesA, axesB []int) (retVal *Dense, err 
 
 	newAxesB := BorrowInts(len(notins) + len(axesB))
 	defer ReturnInts(newAxesB)
-	newAxesB = newAxesB[:0]
-	newAxesB = append(axesB, notins...)
+	newAxesB = append(append(newAxesB[:0], axesB...), notins...)
 
 	newShapeO := Shape(BorrowInts(2))
 	defer ReturnInts(newShapeO)
